@@ -43,7 +43,7 @@ func main() {
 		seed = -seed
 	}
 	seedRot = seed
-	c.SetBudget(6*time.Minute, 40*time.Minute)
+	c.SetBudget(12*time.Minute, 45*time.Minute)
 
 	var shards []pool.Shard
 	chunk := func(n int64, per int64, f func(lo, hi int64)) {
@@ -157,9 +157,17 @@ func main() {
 		}
 		shards = keep
 	}
-	// long shards first (better balance)
-	sort.SliceStable(shards, func(i, j int) bool { return shardWeight(shards[i]) > shardWeight(shards[j]) })
-
+	// three phases; the wall-clock budget is only consulted between phases
+	phaseOf := func(sh pool.Shard) int {
+		switch sh.Kind {
+		case "val", "bind", "bytes", "bytebind":
+			return 0
+		case "dec":
+			return 1
+		}
+		return 2
+	}
+	phaseNames := []string{"value trees + byte strings + script binding", "json_decode / unserialize inputs", "protobuf wire"}
 	var total, calls int64
 	famCount := map[string]int64{}
 	famMs := map[string]int64{}
@@ -167,45 +175,61 @@ func main() {
 	slowestFam := ""
 	outcomes := map[string]int64{}
 	samples := 0
-	pool.Run(shards, pool.Options{}, func(si int, rb json.RawMessage) {
-		var r rec
-		json.Unmarshal(rb, &r)
-		switch r.Kind {
-		case "count":
-			total += r.N
-			calls += r.Calls
-			famCount[r.Fam] += r.N
-			famMs[r.Fam] += r.Ms
-			if r.Ms > slowest {
-				slowest, slowestFam = r.Ms, r.Fam
-			}
-			for k, v := range r.Outcome {
-				outcomes[k] += v
-			}
-		case "fail":
-			c.Fail(r.Key, r.Clause, r.Size, r.Case, r.Detail)
-			for i := int64(1); i < r.Count && i < 500000; i++ {
-				c.Fail(r.Key, r.Clause, 1<<30, nil, "")
-			}
-			c.Add("failing_cases", r.Count)
-		case "sample":
-			if samples < 10 {
-				samples++
-				c.Sample(r.Case)
-			}
-		case "note":
-			if r.Key == "self-test" {
-				c.HarnessError("%s", r.Detail)
-			} else {
-				fmt.Fprintln(os.Stderr, "note:", r.Detail)
+	var done []string
+	for ph := 0; ph < 3; ph++ {
+		var part []pool.Shard
+		for _, sh := range shards {
+			if phaseOf(sh) == ph {
+				part = append(part, sh)
 			}
 		}
-	}, func(d pool.Death) {
-		fam := strings.SplitN(d.Item, " ", 2)[0]
-		c.Fail(fam+":worker-death:"+runner.FatalFrame(d.Stderr), "crash", 0, map[string]any{"kind": "death", "item": d.Item, "reason": d.Reason}, d.Stderr)
-	})
-	if c.Expired() {
-		c.NotExhaustive("wall-clock budget expired after the listed family counts")
+		if len(part) == 0 {
+			continue
+		}
+		if c.Expired() {
+			c.NotExhaustive("wall-clock budget expired; completed phases: " + strings.Join(done, "; "))
+			break
+		}
+		// long shards first (better balance)
+		sort.SliceStable(part, func(i, j int) bool { return shardWeight(part[i]) > shardWeight(part[j]) })
+		pool.Run(part, pool.Options{Env: []string{"GOMAXPROCS=4", "GOGC=400"}}, func(si int, rb json.RawMessage) {
+			var r rec
+			json.Unmarshal(rb, &r)
+			switch r.Kind {
+			case "count":
+				total += r.N
+				calls += r.Calls
+				famCount[r.Fam] += r.N
+				famMs[r.Fam] += r.Ms
+				if r.Ms > slowest {
+					slowest, slowestFam = r.Ms, r.Fam
+				}
+				for k, v := range r.Outcome {
+					outcomes[k] += v
+				}
+			case "fail":
+				c.Fail(r.Key, r.Clause, r.Size, r.Case, r.Detail)
+				for i := int64(1); i < r.Count && i < 500000; i++ {
+					c.Fail(r.Key, r.Clause, 1<<30, nil, "")
+				}
+				c.Add("failing_cases", r.Count)
+			case "sample":
+				if samples < 10 {
+					samples++
+					c.Sample(r.Case)
+				}
+			case "note":
+				if r.Key == "self-test" {
+					c.HarnessError("%s", r.Detail)
+				} else {
+					fmt.Fprintln(os.Stderr, "note:", r.Detail)
+				}
+			}
+		}, func(d pool.Death) {
+			fam := strings.SplitN(d.Item, " ", 2)[0]
+			c.Fail(fam+":worker-death:"+runner.FatalFrame(d.Stderr), "crash", 0, map[string]any{"kind": "death", "item": d.Item, "reason": d.Reason}, d.Stderr)
+		})
+		done = append(done, phaseNames[ph])
 	}
 	for k, v := range outcomes {
 		for i := int64(0); i < v && i < 1; i++ {
@@ -225,7 +249,7 @@ func main() {
 	c.Assume("rawurlencode output is additionally read back as a query value through net/url.ParseQuery (RFC 3986 leaves no reserved character unescaped)")
 	c.Assume("protowire nesting: top level is level 1, each message/group content one deeper, max_depth = N admits N levels (pinned for messages by std/protowire TestDepthLimit); a field configured both packed and message may be read either way")
 	c.Assume("outside the bound: value trees deeper than 3 / wider than 3, decoder inputs that are neither short, nor within edit distance 1 of a reference encoding, nor a ladder; objects (O:) in serialize; var_export; JSON flags; hash algorithms without a Go standard-library reference (xxh3)")
-	if len(outcomes) < 12 || outcomes["tree ok"] == 0 || outcomes["json well-formed, agrees"] == 0 || outcomes["protowire cases"] == 0 {
+	if os.Getenv("VERIF_C14_ONLY") == "" && c.Exhaustive && (len(outcomes) < 12 || outcomes["tree ok"] == 0 || outcomes["json well-formed, agrees"] == 0 || outcomes["protowire cases"] == 0) {
 		c.HarnessError("vacuous: outcomes %v", outcomes)
 	}
 	c.Finish(total, calls, calls, "complete enumeration per family (see coverage.family_counts): value trees depth<=2/3 -> json_encode+serialize with reference read-back and own-decoder round trip; all byte strings len<=2 + hot-set len 3 -> base64/url/rawurl/hex/md5/hash and their decoders; all strings of <=k symbols over char and token alphabets + edit-distance-1 neighbourhoods of reference encodings + nesting ladders -> json_decode (both modes) and unserialize; all byte strings len<=3, all strings <=k over the wire alphabet, edit neighbourhoods and message/group chains to depth 70 under every relevant option combination -> ParseRawFields vs an independent walker; states = cases, executions = builtin calls")
